@@ -481,6 +481,18 @@ func c20replay2(r *Run, w []string) bool {
 				c20opt(r, k, unhx(w[2]))
 			}
 		}
+	case "pathsx":
+		var ms []string
+		if w[1] != "none" {
+			for _, h := range strings.Split(w[1], ",") {
+				ms = append(ms, unhx(h))
+			}
+		}
+		c20pathsx(r, ms, unhx(w[2]))
+	case "cfref":
+		c20cfref(r, unhx(w[1]))
+	case "swmerge":
+		c20swmerge(r, unhx(w[1]), unhx(w[2]))
 	case "cfpair":
 		c20cfpair(r, unhx(w[1]), unhx(w[2]))
 	case "colrng":
